@@ -8,14 +8,14 @@ from typing import Any
 from . import core
 
 
-def load(rel: str = "rust/src/constants.rs") -> dict[str, Any]:
+def load(rel: str = "rust/src/constants.rs", strict: bool = True, env: dict[str, Any] | None = None) -> dict[str, Any]:
     p = core.REPO / rel
     if not p.exists():
         raise core.AnchorMissing(f"{rel} not found")
     text = re.sub(r"//.*", "", p.read_text())
     text = re.sub(r"#\[[^\]]*\]", "", text)
-    out: dict[str, Any] = {}
-    for m in re.finditer(r"pub const (\w+)\s*:\s*([^=]+?)\s*=\s*(.*?);", text, re.S):
+    out: dict[str, Any] = dict(env or {})
+    for m in re.finditer(r"(?:pub(?:\([a-z]+\))? )?const (\w+)\s*:\s*([^=]+?)\s*=\s*(.*?);", text, re.S):
         name, _ty, expr = m.group(1), m.group(2), m.group(3)
         expr = re.sub(r"\s+as\s+\w+", "", expr)
         expr = re.sub(r"(?<=\d)_(?=[iu]\d+\b|usize\b|isize\b)", "", expr)
@@ -24,7 +24,24 @@ def load(rel: str = "rust/src/constants.rs") -> dict[str, Any]:
             tree = ast.parse(expr.strip(), mode="eval").body
             out[name] = _ev(tree, out)
         except (SyntaxError, core.NotConst) as e:
-            raise core.Unsupported(f"rust constant {name}: {e}")
+            if strict:
+                raise core.Unsupported(f"rust constant {name}: {e}")
+    return out
+
+
+def load_all() -> dict[str, Any]:
+    """the literal constants of every module of the crate (constants.rs first: the others may refer to it); items that are not
+    literal arithmetic are left out"""
+    out = dict(load())
+    for f in sorted((core.REPO / "rust/src").rglob("*.rs")):
+        rel = str(f.relative_to(core.REPO))
+        if rel.endswith("constants.rs"):
+            continue
+        try:
+            for k, v in load(rel, strict=False, env=out).items():
+                out.setdefault(k, v)
+        except (core.AnchorMissing, core.Unsupported):
+            continue
     return out
 
 
